@@ -78,7 +78,7 @@ theorem C14_dead_instance_counterexample : ¬ C14_instantiate_lang_full := by
   have hinst : instantiate deadWitness 10 =
       some ([⟨0, []⟩, ⟨1, [(0, 1)]⟩, ⟨1, [(0, 0)]⟩],
         plain deadWitness [⟨0, []⟩, ⟨1, [(0, 1)]⟩, ⟨1, [(0, 0)]⟩]
-          [⟨4, [1, 5], 0⟩, ⟨4, [2, 6], 0⟩, ⟨5, [3], 0⟩, ⟨6, [], 0⟩] [⟨4, true⟩]) := by decide
+          [⟨4, [1, 5], 0⟩, ⟨4, [2, 6], 0⟩, ⟨5, [3], 0⟩, ⟨6, [], 0⟩] [⟨4, true⟩]) := by rfl
   have h := hfull deadWitness 10 _ _ hinst 2 ⟨1, [(0, 0)]⟩ (by decide) []
   have hd : Derives (plain deadWitness [⟨0, []⟩, ⟨1, [(0, 1)]⟩, ⟨1, [(0, 0)]⟩]
       [⟨4, [1, 5], 0⟩, ⟨4, [2, 6], 0⟩, ⟨5, [3], 0⟩, ⟨6, [], 0⟩] [⟨4, true⟩]) (deadWitness.nTerms + 2) [] :=
@@ -97,7 +97,9 @@ theorem C14_dead_instance_counterexample : ¬ C14_instantiate_lang_full := by
 theorem C14_dead_instance_sentence :
     ∃ insts G, instantiate deadWitness 10 = some (insts, G) ∧ Sentence G 0 [2] ∧
       ¬ Der noImp deadWitness 0 env0 [2] := by
-  refine ⟨_, _, by decide, ?_, ?_⟩
+  refine ⟨[⟨0, []⟩, ⟨1, [(0, 1)]⟩, ⟨1, [(0, 0)]⟩],
+    plain deadWitness [⟨0, []⟩, ⟨1, [(0, 1)]⟩, ⟨1, [(0, 0)]⟩]
+      [⟨4, [1, 5], 0⟩, ⟨4, [2, 6], 0⟩, ⟨5, [3], 0⟩, ⟨6, [], 0⟩] [⟨4, true⟩], by rfl, ?_, ?_⟩
   · refine ⟨⟨4, true⟩, by decide, ?_⟩
     have : Derives (plain deadWitness [⟨0, []⟩, ⟨1, [(0, 1)]⟩, ⟨1, [(0, 0)]⟩]
         [⟨4, [1, 5], 0⟩, ⟨4, [2, 6], 0⟩, ⟨5, [3], 0⟩, ⟨6, [], 0⟩] [⟨4, true⟩]) 4 ([2] ++ ([] ++ [])) :=
@@ -106,24 +108,21 @@ theorem C14_dead_instance_sentence :
           (DerivesSeq.cons 6 [] [] [] (Derives.rule ⟨6, [], 0⟩ [] (by simp [plain]) DerivesSeq.nil) DerivesSeq.nil))
     simpa using this
   · intro hder
-    cases hder with
-    | alt _ _ nt a _ hnt ha hen hseq =>
+    obtain ⟨nt, a, hnt, ha, _, hseq⟩ := hder.inv
+    simp [deadWitness] at hnt
+    subst hnt
+    simp at ha
+    rcases ha with rfl | rfl
+    · obtain ⟨v, hv, _, _⟩ := hseq.t_inv
+      cases hv
+    · obtain ⟨v, hv, _, hrest⟩ := hseq.t_inv
+      obtain ⟨u, v', _, hB, _⟩ := hrest.n_inv
+      obtain ⟨nt, a, hnt, ha, hen, _⟩ := hB.inv
       simp [deadWitness] at hnt
       subst hnt
       simp at ha
-      rcases ha with rfl | rfl
-      · cases hseq
-      · cases hseq with
-        | t _ _ _ _ _ v _ hrest =>
-          cases hrest with
-          | n _ _ _ _ _ _ u v' hB hnil =>
-            cases hB with
-            | alt _ _ nt a _ hnt ha hen _ =>
-              simp [deadWitness] at hnt
-              subst hnt
-              simp at ha
-              subst ha
-              simp [Alt.enabled, Pred.eval, callEnv, findArg, ArgV.get] at hen
+      subst ha
+      simp [Alt.enabled, Pred.eval, callEnv, findArg, ArgV.get] at hen
 
 /-- Inputs: input `k` of the instantiated grammar is the instance of the input nonterminal with NO
 bound parameter, so its sentences are what the template derives with every parameter unset
